@@ -111,6 +111,19 @@ def check_point(h, p, alg, part):
     n = F.number_of_variables()
     rows = rows_of(F)
     opb = is_opb(F)
+    if getattr(h, 'deterministic', True) and __import__('zlib').crc32(repr(sorted(p.items(), key=lambda kv: kv[0])).encode()) % 3 == 0:
+        # the same call again (after whatever other calls this process has made): a generator is a function of
+        # its arguments - no state may be kept between calls
+        try:
+            F2 = h.build(p)
+            same = (F2.number_of_variables() == n and rows_of(F2) == rows and
+                    list(F2.all_variable_labels()) == list(F.all_variable_labels()))
+        except Exception as e:  # noqa
+            same = False
+        part.counts['rebuilt_twice'] += 1
+        if not same:
+            part.case(h.name, 'second_call_differs', p, 'calling the generator a second time with the same arguments gives a different formula')
+            return
     bad = [l for l in literals_of(F) if not isinstance(l, int) or isinstance(l, bool) or l == 0 or abs(l) > n]
     if bad:
         part.case(h.name, 'literal_out_of_range', p, 'literals %s with %d declared variables' % (bad[:5], n))
@@ -348,6 +361,19 @@ def replay(case):
     opb = is_opb(F)
     if kind == 'missing_refusal':
         return True, 'formula with %d variables returned' % n
+    if kind == 'second_call_differs':
+        F2 = h.build(p)
+        diff = not (F2.number_of_variables() == n and rows_of(F2) == rows and list(F2.all_variable_labels()) == list(F.all_variable_labels()))
+        if not diff:
+            # the difference may need the calls made before: build a few other points first
+            for q in list(h.points('quick'))[:40]:
+                try:
+                    h.build(q)
+                except Exception:  # noqa
+                    pass
+            F3 = h.build(p)
+            diff = not (F3.number_of_variables() == n and rows_of(F3) == rows and list(F3.all_variable_labels()) == list(F.all_variable_labels()))
+        return diff, 'two calls with the same arguments differ: %s' % diff
     if kind == 'literal_out_of_range':
         bad = [l for l in literals_of(F) if not isinstance(l, int) or l == 0 or abs(l) > n]
         return bool(bad), 'literals %s, n=%d' % (bad[:5], n)
